@@ -1,17 +1,12 @@
 #!/usr/bin/env python3
 """Regenerate the "fixed" list of known_findings.json from the fix: commits in /repo.
-Property attribution: subject -> property map kept in tools/fix_props.json (extended from the per-property clones when present)."""
+Property attribution: subject -> property map kept in tools/fix_props.json."""
 import json, subprocess, os, glob
 V=os.path.dirname(os.path.dirname(os.path.abspath(__file__)))
 mp_path=os.path.join(V,'tools','fix_props.json')
 mp=json.load(open(mp_path)) if os.path.exists(mp_path) else {}
-for d in glob.glob('/tmp/zvw-C*/repo'):
-    p=d.split('-')[1].split('/')[0]
-    try:
-        out=subprocess.check_output(['git','-C',d,'log','--format=%s',f'fixes-{p}','-60'],stderr=subprocess.DEVNULL).decode().splitlines()
-    except Exception: continue
-    for s in out:
-        if s.startswith('fix:') and s not in mp: mp[s]=p
+# (attribution: tools/fix_props.json; entries whose recorded property does not anchor any file the commit touches were
+# re-attributed by anchor file on 2026-10-02)
 log=subprocess.check_output(['git','-C','/repo','log','--reverse','--format=%h\t%s']).decode().splitlines()
 fixed=[]; unknown=[]
 for l in log:
